@@ -238,7 +238,15 @@ pub fn run(cases_path: &str, out_path: &str, _tier: &str, seed: u64) {
             let mpw_refs: Vec<&Password> = mpws.iter().collect();
             let mk_sk = |good: bool| -> PlainSessionKey {
                 let mut k = built.sk.clone();
-                if !good { k[0] ^= 0xA5; k[5] ^= 0x11; }
+                // a session key that is not the message's: different octets, or the right octets with more / fewer of them
+                if !good {
+                    match c["ci"].as_u64().unwrap_or(0) % 4 {
+                        0 => { k[0] ^= 0xA5; k[5] ^= 0x11; }
+                        1 => k.push(0x42),
+                        2 => k.truncate(k.len() - 1),
+                        _ => k.clear(),
+                    }
+                }
                 if v2 { PlainSessionKey::V6 { key: k.into() } } else { PlainSessionKey::V3_4 { sym_alg: SymmetricKeyAlgorithm::AES128, key: k.into() } }
             };
             let sks: Vec<PlainSessionKey> = cfg["sks"].as_array().unwrap().iter().map(|s| mk_sk(s == "good")).collect();
@@ -276,10 +284,16 @@ pub fn run(cases_path: &str, out_path: &str, _tier: &str, seed: u64) {
     // ---- value-dependent encodings of the encrypted session key: every recipient algorithm over many encryptions (an RSA ciphertext or an
     //      ECDH shared secret starts with a zero octet about once in 256), each must still be opened by its recipient
     {
-        let recips: Vec<(&str, bool, EncAlg)> = vec![("rsa2048 v4", false, EncAlg::Rsa2048), ("rsa2048 v6", true, EncAlg::Rsa2048), ("ecdh-cv25519 v4", false, EncAlg::EcdhCv25519), ("ecdh-p256 v4", false, EncAlg::EcdhP256), ("x25519 v6", true, EncAlg::X25519)];
+        let recips: Vec<(&str, bool, EncAlg)> = vec![("rsa2048 v4", false, EncAlg::Rsa2048), ("rsa2048 v6", true, EncAlg::Rsa2048), ("ecdh-cv25519 v4", false, EncAlg::EcdhCv25519), ("ecdh-p256 v4", false, EncAlg::EcdhP256), ("x25519 v6", true, EncAlg::X25519),
+                                                       ("ecdh-p256 v4 kdf-sha384-aes256", false, EncAlg::EcdhP256), ("ecdh-p384 v4 kdf-sha384-aes256", false, EncAlg::EcdhP384)];
         let trials: u64 = if _tier == "thorough" { 6000 } else { 1500 };
         for (ri, (name, v6, enc)) in recips.iter().enumerate() {
-            let Ok(cert) = gen_key(seed ^ (0x18A0 + ri as u64), *v6, if *v6 { &Alg::Ed25519 } else { &Alg::Ed25519Legacy }, Some(enc), name) else { continue };
+            let made = if name.contains("kdf") {
+                gen_key_ecdh_kdf(seed ^ (0x18A0 + ri as u64), enc, pgp::crypto::hash::HashAlgorithm::Sha384, SymmetricKeyAlgorithm::AES256, name)
+            } else {
+                gen_key(seed ^ (0x18A0 + ri as u64), *v6, if *v6 { &Alg::Ed25519 } else { &Alg::Ed25519Legacy }, Some(enc), name)
+            };
+            let Ok(cert) = made else { continue };
             let sub = cert.secret_subkeys[0].public_key();
             let short = std::sync::atomic::AtomicU64::new(0);
             let fails: Vec<String> = (0..trials).into_par_iter().filter_map(|t| {
